@@ -1,8 +1,135 @@
-/- PyodaModel.Calendar — placeholder until the area is modelled. -/
-import PyodaModel.Prelude
+/-
+  PyodaModel.Calendar — executable model of the calendar systems of pyoda_time (area "Calendar", properties
+  C01/C02) and its line-protocol handler.
+
+    Calendar/Core.lean       generic layer: `Calc`, year search, day ↔ (y, m, d), validation, packing, eras
+    Calendar/Systems.lean    one transcription per calculator, `calcOf : ordinal → Calc`
+    Calendar/Tables.lean     the three data tables (Um Al Qura, Badi, Persian astronomical), see the note there
+    Calendar/Reference.lean  independently written textbook formulas (C02)
+
+  Ops (c = calendar ordinal 0…18):
+    cal.range c                     → minYear maxYear minDays maxDays
+    cal.year c y                    → start len months leap dim(1..n) daysBeforeMonth(1..n)   (!valueError outside [minYear, maxYear])
+    cal.month c y m                 → daysBeforeMonth daysInMonth
+    cal.ymd c d                     → y m dd dayOfYear dayOfWeek era yearOfEra   (!valueError outside the range)
+    cal.days c y m dd               → day number                     (!valueError when (y, m, dd) is rejected)
+    cal.cmp c y1 m1 d1 y2 m2 d2     → sign of the calendar's own comparison
+    cal.era c y                     → era yearOfEra ;  cal.abs c era yoe → y ;  cal.eras c ;  cal.erarange c era
+    cal.conv c1 y m dd c2           → y' m' dd'   (with_calendar)
+    cal.isofast d                   → y m dd      (the calendar-less ISO constructor with its 1900–2100 tables)
+    cal.pack y m d ord              → packed value and the four fields read back
+    cal.tbl name i                  → table entry (uaq | badi | pastro)
+    ref.* ops of Calendar/Reference.lean
+-/
+import PyodaModel.Calendar.Core
+import PyodaModel.Calendar.Tables
+import PyodaModel.Calendar.Systems
+import PyodaModel.Calendar.Reference
 
 namespace Pyoda.Calendar
 
-def handle (_toks : List String) : Option String := none
+/-- `calendar._validate_year_month_day` with the Gregorian override -/
+def validateOrd (ord : Nat) (c : Calc) (y m d : Int) : R Unit :=
+  if ord ≤ 1 then Greg.validate y m d else validate c y m d
+
+/-- `LocalDate(y, m, d, calendar)._days_since_epoch` with the Gregorian table path -/
+def daysOrd (ord : Nat) (c : Calc) (y m d : Int) : R Int := do
+  validateOrd ord c y m d
+  if ord ≤ 1 then Greg.daysOfYmdFast y m d else daysOfYmdRaw c y m d
+
+def withCalc (tok : String) (k : Nat → Calc → Option String) : Option String := do
+  let n ← tok.toNat?
+  let c ← calcOf n
+  k n c
+
+def ymdReply (ord : Nat) (c : Calc) (d : Int) : R String := do
+  let r ← fromDays c d
+  let (y, m, dd) := viaPacked ord r
+  pure (showInts [y, m, dd, dayOfYear c y m dd, dayOfWeek d] ++ " " ++ eraOf c y ++ " " ++ toString (yearOfEra c y))
+
+def handle (toks : List String) : Option String :=
+  match toks with
+  | ["cal.range", c] => withCalc c fun _ c =>
+      some (showR id (do
+        let lo ← minDays c
+        let hi ← maxDays c
+        pure (showInts [c.minYear, c.maxYear, lo, hi])))
+  | ["cal.year", c, y] => withCalc c fun _ c => do
+      let y ← parseInt? y
+      some (showR id (do
+        checkRange y c.minYear c.maxYear
+        let s ← c.startR y
+        let l ← c.lenR y
+        let ms := (List.range (c.months y).toNat).map (fun (i : Nat) => (i : Int) + 1)
+        pure (showInts [s, l, c.months y] ++ " " ++ showBool (c.leap y) ++ " "
+              ++ showInts (ms.map (c.dim y)) ++ " " ++ showInts (ms.map (c.toMonth y)))))
+  | ["cal.month", c, y, m] => withCalc c fun n c => do
+      let y ← parseInt? y
+      let m ← parseInt? m
+      some (showR id (do
+        validateOrd n c y m 1
+        pure (showInts [c.toMonth y m, c.dim y m])))
+  | ["cal.ymd", c, d] => withCalc c fun n c => do
+      let d ← parseInt? d
+      some (showR id (ymdReply n c d))
+  | ["cal.days", c, y, m, d] => withCalc c fun n c => do
+      let y ← parseInt? y
+      let m ← parseInt? m
+      let d ← parseInt? d
+      some (showR toString (daysOrd n c y m d))
+  | ["cal.cmp", c, y1, m1, d1, y2, m2, d2] => withCalc c fun n c => do
+      let v ← parseInts? [y1, m1, d1, y2, m2, d2]
+      match v with
+      | [y1, m1, d1, y2, m2, d2] =>
+        some (showR toString (do
+          validateOrd n c y1 m1 d1
+          validateOrd n c y2 m2 d2
+          pure (sgn (cmpYmd c (viaPacked n (y1, m1, d1)) (viaPacked n (y2, m2, d2))))))
+      | _ => none
+  | ["cal.era", c, y] => withCalc c fun _ c => do
+      let y ← parseInt? y
+      some (showR id (do
+        checkRange y c.minYear c.maxYear
+        pure (eraOf c y ++ " " ++ toString (yearOfEra c y))))
+  | ["cal.abs", c, era, yoe] => withCalc c fun _ c => do
+      let yoe ← parseInt? yoe
+      some (showR toString (absoluteYear c yoe era))
+  | ["cal.eras", c] => withCalc c fun _ c => some (" ".intercalate (eras c))
+  | ["cal.erarange", c, era] => withCalc c fun _ c =>
+      some (showR id (do
+        let lo ← minYearOfEra c era
+        let hi ← maxYearOfEra c era
+        pure (showInts [lo, hi])))
+  | ["cal.conv", c1, y, m, d, c2] => withCalc c1 fun n1 k1 => withCalc c2 fun n2 k2 => do
+      let y ← parseInt? y
+      let m ← parseInt? m
+      let d ← parseInt? d
+      some (showR id (do
+        let days ← daysOrd n1 k1 y m d
+        let r ← fromDays k2 days
+        let (y', m', d') := viaPacked n2 r
+        pure (showInts [y', m', d'])))
+  | ["cal.isofast", d] => do
+      let d ← parseInt? d
+      some (showR id (do
+        let r ← Greg.ymdOfDaysFast d
+        let (y, m, dd) := viaPacked 0 r
+        pure (showInts [y, m, dd])))
+  | ["cal.pack", y, m, d, o] => do
+      let v ← parseInts? [y, m, d, o]
+      match v with
+      | [y, m, d, o] =>
+        let p := packYmdc y m d o
+        some (showInts [p, unpackYear p, unpackMonth p, unpackDay p, unpackOrd p])
+      | _ => none
+  | ["cal.tbl", name, i] => do
+      let i ← i.toNat?
+      let t ← (if name = "uaq" then some Tables.umAlQuraMonthBits
+               else if name = "badi" then some Tables.badiYearInfo
+               else if name = "pastro" then some Tables.persianAstroLeapBits else none)
+      match t[i]? with
+      | some v => some (toString v)
+      | none => some "!indexError"
+  | _ => Reference.handle toks
 
 end Pyoda.Calendar
